@@ -51,7 +51,25 @@ reg["C05"] = {"level": "model_checking", "explanation": EXPL, "assumptions": ASS
     "outside": ["dispatch of the created tasks (C08)", "crash between commits (atomicity of one SQL transaction is assumed)"],
     "harnesses": store(["VH_C05_CompletionTxn"], ["C05:"]) + store(["VH_C16_CreateCallback", "VH_C16_DeleteCallbacks", "VH_C16_CreateTasks"], [])
                  + co(CB_H, ["C05:", "O2:I3"], opts=CBOPT, reach=REACH_P) + co(PROMISE_H, ["O2:I3", "O2:I4"], reach=REACH_P)}
+TASKOPT = {"slots.callbacks": 0, "slots.locks": 0, "slots.schedules": 0, "slots.promises": 1, "slots.tasks": 2}
+TASKOPT_T = {"slots.callbacks": 1, "slots.locks": 0, "slots.schedules": 0, "slots.promises": 2, "slots.tasks": 3, "faults": 2}
+LOCKOPT = {"slots.callbacks": 0, "slots.locks": 2, "slots.schedules": 0, "slots.promises": 0, "slots.tasks": 0}
+LOCKOPT_T = {"slots.callbacks": 0, "slots.locks": 3, "slots.schedules": 0, "slots.promises": 0, "slots.tasks": 0, "faults": 2}
+SCHEDOPT = {"slots.callbacks": 0, "slots.locks": 0, "slots.schedules": 2, "slots.promises": 2, "slots.tasks": 1, "batch": 1}
+SCHEDOPT_T = {"slots.callbacks": 0, "slots.locks": 0, "slots.schedules": 2, "slots.promises": 2, "slots.tasks": 2, "batch": 2, "faults": 2}
+REACH_P.update({"VH_T_Complete": ["completed", "refused", "error"], "VH_T_Heartbeat": ["ok", "error"], "VH_T_TimeoutSweep": ["write", "no-write"],
+    "VH_L_Acquire": ["acquired", "refused", "error"], "VH_L_Release": ["released", "notfound", "error"], "VH_L_Heartbeat": ["ok", "error"], "VH_L_TimeoutSweep": ["swept"],
+    "VH_S_Fire": ["firing-transaction"], "VH_S_Create": ["created", "exists", "error"], "VH_S_Delete": ["answered", "error"]})
+reg["C09"] = {"level": "model_checking", "explanation": EXPL, "assumptions": ASSUME_CO + ["a lock whose lease has expired but has not been swept still excludes other executions (the statement only promises the holder keeps it at least until expiry)"],
+    "outside": ["t + ttl wrap-around for ttl >= 2^62"],
+    "harnesses": co(["VH_L_Acquire", "VH_L_Release", "VH_L_Heartbeat", "VH_L_TimeoutSweep"], ["C09:", "O2:I5", "O2:I1:locks"], opts=LOCKOPT, optsT=LOCKOPT_T, reach=REACH_P)
+                 + store(["VH_C16_AcquireLock", "VH_C16_ReleaseLock", "VH_C16_HeartbeatLocks", "VH_C16_TimeoutLocks"], [])}
+reg["C10"] = {"level": "model_checking", "explanation": EXPL, "assumptions": ASSUME_CO + ["robfig/cron is an uninterpreted next(t, cron) with next(t, cron) > t for a parsable expression; html/template expansion is an uninterpreted expand(template, id, timestamp)"],
+    "outside": ["that robfig/cron computes the right instants", "HTML escaping inside the id template"],
+    "harnesses": co(["VH_S_Fire", "VH_S_Create", "VH_S_Delete"], ["C10:", "O2:I6", "O2:G4", "O2:I1:schedules"], opts=SCHEDOPT, optsT=SCHEDOPT_T, reach=REACH_P)
+                 + store(["VH_C16_CreateSchedule", "VH_C16_UpdateSchedule", "VH_C16_DeleteSchedule"], [])}
 reg["C07"] = {"level": "model_checking", "explanation": EXPL, "assumptions": ASSUME_CO,
     "outside": ["real-time behaviour of workers", "more than the fault budget of failing submissions"],
     "harnesses": co(["VH_C07_Claim"], ["claim", "refus", "invalid", "O2:G2", "O2:I4"], opts={"slots.callbacks": 0, "slots.locks": 0, "slots.schedules": 0, "slots.promises": 2, "slots.tasks": 2}, reach=REACH_P)
+                 + co(["VH_T_Complete", "VH_T_Heartbeat", "VH_T_TimeoutSweep"], ["C07:", "O2:G2", "O2:I4"], opts=TASKOPT, optsT=TASKOPT_T, reach=REACH_P)
                  + store(["VH_C16_UpdateTask", "VH_C16_HeartbeatTasks", "VH_C16_CompleteTasks"], [])}
